@@ -111,7 +111,22 @@ def _property_backing(ci, first):
     return out
 
 
-def method_calls_over(prog, fi, states, meth, recv_tail):
+def positional(callee, args, kw):
+    """Argument texts in the callee's parameter order (keyword arguments bound by name); None when they do not fit."""
+    names = callee.params[1:] if callee.cls is not None else callee.params
+    out = list(args)
+    if len(out) > len(names):
+        return None
+    for n in names[len(out):]:
+        if n not in kw:
+            break
+        out.append(kw[n])
+    if len(out) != len(args) + len(kw):
+        return None
+    return out
+
+
+def method_calls_over(prog, fi, states, meth, recv_tail, callee=None):
     """Calls `<key><recv_tail>.<meth>(...)` made by fi (on any path), each with the set of keys it is made for:
     -> list of (ast.Call node, atoms or None, arg texts, receiver text)."""
     first = fi.params[0]
@@ -130,7 +145,8 @@ def method_calls_over(prog, fi, states, meth, recv_tail):
                     atoms = _elements(s.bound[key], backing)
                 elif re.match(r'^[A-Za-z_][\w.]*$', key):
                     atoms = {('one', key)}
-            out.append((node, atoms, list(args) + ['%s=%s' % kv for kv in sorted(kw.items())], recv))
+            pa = positional(callee, args, kw) if callee is not None else None
+            out.append((node, atoms, pa if pa is not None else list(args) + ['%s=%s' % kv for kv in sorted(kw.items())], recv))
     return out
 
 
@@ -177,8 +193,9 @@ def check_unlock(rep, prog):
     first = fi.params[0]
     pw = fi.params[1] if len(fi.params) > 1 else 'passphrase'
     states = Interp(prog, Scenario(inline=noinline)).run(fi)
-    unp_calls = method_calls_over(prog, fi, states, 'unprotect', '._key')
-    dk = method_calls_over(prog, fi, states, 'decrypt_keyblob', '._key.keymaterial')
+    up = prog.method('pgpy.packet.packets', 'PrivKeyV4', 'unprotect')
+    unp_calls = method_calls_over(prog, fi, states, 'unprotect', '._key', up)
+    dk = method_calls_over(prog, fi, states, 'decrypt_keyblob', '._key.keymaterial', prog.method('pgpy.packet.fields', 'PrivKey', 'decrypt_keyblob'))
     clr_calls = method_calls_over(prog, fi, states, 'clear', '._key.keymaterial')
     if not unp_calls and not dk:
         raise AnalysisError('PGPKey.unlock no longer calls unprotect')
@@ -252,11 +269,11 @@ def check_unlock(rep, prog):
     for node, atoms, args, recv in unp_calls:
         rep.check(atoms is not None and args == [pw], 'C06.1', 'PGPKey.unlock', 'unprotect call %s(%s)' % (alpha(recv), ', '.join(args)),
                   'each key is unprotected with the caller\'s passphrase', where='%s:%d' % (fi.module.relpath, node.lineno))
-    up = prog.method('pgpy.packet.packets', 'PrivKeyV4', 'unprotect')
     rep.saw(fn=up)
     ups = Interp(prog, Scenario(inline=noinline)).run(up)
     me, p1 = up.params[0], (up.params[1] if len(up.params) > 1 else None)
-    ok = bool(ups) and all(any(ft == '%s.keymaterial.decrypt_keyblob' % me and args == [p1] and not kw for ft, args, kw, l, n in s.calls)
+    dkb = prog.method('pgpy.packet.fields', 'PrivKey', 'decrypt_keyblob')
+    ok = bool(ups) and all(any(ft == '%s.keymaterial.decrypt_keyblob' % me and positional(dkb, args, kw) == [p1] for ft, args, kw, l, n in s.calls)
                            for s in ups if s.raised is None)
     rep.check(ok, 'C06.1', 'PrivKeyV4.unprotect', 'delegates to decrypt_keyblob',
               'unprotect decrypts the key material with the passphrase', where=up.where)
@@ -431,50 +448,96 @@ def _pubfields(c):
 def check_encrypt_keyblob(rep, prog):
     fi = prog.method('pgpy.packet.fields', 'PrivKey', 'encrypt_keyblob')
     rep.saw(fn=fi)
+    if len(fi.params) < 4:
+        raise AnalysisError('PrivKey.encrypt_keyblob signature changed: %s' % fi.params)
+    me, pw, enc_alg, hash_alg = fi.params[:4]
+    S2K = '%s.s2k' % me
     for s in Interp(prog, Scenario(inline=noinline)).run(fi):
+        if s.raised is not None:
+            continue
         st = {p: v for p, v, l, _ in s.stores}
-        rep.check(st.get('self.s2k.usage') == '254', 'C06.3', 'PrivKey.encrypt_keyblob', 'usage %s' % st.get('self.s2k.usage'),
+        rep.check(st.get(S2K + '.usage') == '254', 'C06.3', 'PrivKey.encrypt_keyblob', 'usage %s' % st.get(S2K + '.usage'),
                   'new protection must use S2K usage 254 (SHA-1 integrity check)', where=fi.where)
-        rep.check(st.get('self.s2k.specifier') == 'String2KeyType.Iterated', 'C06.3', 'PrivKey.encrypt_keyblob', 'specifier %s' % st.get('self.s2k.specifier'),
+        rep.check(st.get(S2K + '.specifier') == 'String2KeyType.Iterated', 'C06.3', 'PrivKey.encrypt_keyblob', 'specifier %s' % st.get(S2K + '.specifier'),
                   'new protection must use the iterated and salted S2K', where=fi.where)
-        rep.check(st.get('self.s2k.encalg') == 'enc_alg' and st.get('self.s2k.halg') == 'hash_alg', 'C06.3', 'PrivKey.encrypt_keyblob',
-                  'cipher %s hash %s' % (st.get('self.s2k.encalg'), st.get('self.s2k.halg')), 'the specifier records the cipher and hash chosen by the caller',
+        rep.check(st.get(S2K + '.encalg') == enc_alg and st.get(S2K + '.halg') == hash_alg, 'C06.3', 'PrivKey.encrypt_keyblob',
+                  'cipher %s hash %s' % (st.get(S2K + '.encalg'), st.get(S2K + '.halg')), 'the specifier records the cipher and hash chosen by the caller',
                   where=fi.where)
         enc = [c for c in s.calls if c[0] == '_encrypt']
         if len(enc) != 1:
             rep.violation('C06.3', 'PrivKey.encrypt_keyblob', '%d _encrypt calls' % len(enc), 'expected one encryption of the secret material', where=fi.where)
             continue
         a = enc[0][1]
-        M = 'EACH($1 in self.__privfields__;getattr(self, $1).to_mpibytes())'
+        M = 'EACH($1 in %s.__privfields__;getattr(%s, $1).to_mpibytes())' % (me, me)
         exp_pt = '%s HASH(sha1;%s)' % (M, M)
-        rep.check(alpha(a[0]) == exp_pt, 'C06.3', 'PrivKey.encrypt_keyblob', 'plaintext %s' % a[0],
-                  'the protected plaintext is the private MPIs followed by their SHA-1 (RFC 4880 5.5.3)', where=fi.where, expected=exp_pt, found=a[0])
-        rep.check(a[1:] == ['self.s2k.derive_key(passphrase)', 'enc_alg', 'enc_alg.gen_iv()'], 'C06.3', 'PrivKey.encrypt_keyblob', '_encrypt key/alg/iv %s' % a[1:],
-                  'encryption uses the passphrase-derived key, the chosen cipher and the IV stored in the specifier', where=fi.where)
+        rep.check(bool(a) and alpha(a[0]) == exp_pt, 'C06.3', 'PrivKey.encrypt_keyblob', 'plaintext %s' % (a[0] if a else None),
+                  'the protected plaintext is the private MPIs followed by their SHA-1 (RFC 4880 5.5.3)', where=fi.where, expected=exp_pt, found=a[0] if a else None)
+        iv = st.get(S2K + '.iv')
+        exp_rest = ['%s.derive_key(%s)' % (S2K, pw), enc_alg, '%s.gen_iv()' % enc_alg]
+        dk = prog.method('pgpy.packet.fields', 'String2Key', 'derive_key')
+        a = [a_.replace('derive_key(%s=' % dk.params[1], 'derive_key(') for a_ in a]
+        rep.check(a[1:] == exp_rest and iv == exp_rest[2] and not enc[0][2], 'C06.3', 'PrivKey.encrypt_keyblob', '_encrypt key/alg/iv %s' % a[1:],
+                  'encryption uses the passphrase-derived key, the chosen cipher and the IV stored in the specifier', where=fi.where,
+                  expected='%s with s2k.iv = %s' % (exp_rest, exp_rest[2]), found='%s with s2k.iv = %s' % (a[1:], iv))
+        # the key is derived once the specifier is complete (salt, count, hash, type): derive_key reads them
+        idx_derive = next((i for i, e in enumerate(s.events) if e[0] == 'call' and e[1] == S2K + '.derive_key'), None)
+        late = [e[1] for i, e in enumerate(s.events) if e[0] == 'store' and e[1].startswith(S2K + '.') and idx_derive is not None and i > idx_derive
+                and e[1][len(S2K) + 1:] in ('specifier', 'halg', 'salt', 'count', 'encalg')]
+        rep.check(idx_derive is not None and not late, 'C06.3', 'PrivKey.encrypt_keyblob', 'derive_key after the specifier fields %s' % late,
+                  'the session key must be derived from the specifier that is stored with the ciphertext', where=fi.where, found=late)
         # clear() after the ciphertext is stored
-        idx_store = next((i for i, e in enumerate(s.events) if e[0] == 'store' and e[1] == 'self.encbytes'), None)
-        idx_clear = next((i for i, e in enumerate(s.events) if e[0] == 'call' and e[1] == 'self.clear'), None)
+        idx_store = next((i for i, e in enumerate(s.events) if e[0] == 'store' and e[1] == '%s.encbytes' % me), None)
+        idx_clear = next((i for i, e in enumerate(s.events) if e[0] == 'call' and e[1] == '%s.clear' % me), None)
         rep.check(idx_store is not None and idx_clear is not None and idx_clear > idx_store, 'C06.3', 'PrivKey.encrypt_keyblob',
                   'encbytes stored at %s, clear at %s' % (idx_store, idx_clear), 'after protecting, the cleartext secret fields must be wiped', where=fi.where)
-        rep.check(st.get('self.encbytes', '').startswith('_encrypt('), 'C06.3', 'PrivKey.encrypt_keyblob', 'encbytes = ciphertext',
-                  'the at-rest form is the ciphertext', where=fi.where)
+        rep.check(st.get('%s.encbytes' % me, '') == '_encrypt(%s)' % ', '.join(a), 'C06.3', 'PrivKey.encrypt_keyblob', 'encbytes = ciphertext',
+                  'the at-rest form is the ciphertext', where=fi.where, found=st.get('%s.encbytes' % me))
     pr = prog.method('pgpy.packet.packets', 'PrivKeyV4', 'protect')
-    src = ast.unparse(pr.node)
-    rep.check('self.keymaterial.encrypt_keyblob(passphrase, enc_alg, hash_alg)' in src and 'self.update_hlen()' in src, 'C06.3', 'PrivKeyV4.protect',
-              'encrypt_keyblob then update_hlen', 'protecting recomputes the packet length', where=pr.where)
+    rep.saw(fn=pr)
+    me = pr.params[0]
+    ok = True
+    outs = [s for s in Interp(prog, Scenario(inline=noinline)).run(pr) if s.raised is None]
+    for s in outs:
+        i_enc = next((i for i, e in enumerate(s.events) if e[0] == 'call' and e[1] == '%s.keymaterial.encrypt_keyblob' % me and
+                      positional(fi, e[2], e[3]) == pr.params[1:4]), None)
+        i_len = [i for i, e in enumerate(s.events) if e[0] == 'call' and e[1] == '%s.update_hlen' % me]
+        ok = ok and i_enc is not None and any(i > i_enc for i in i_len)
+    rep.check(ok and bool(outs), 'C06.3', 'PrivKeyV4.protect', 'encrypt_keyblob then update_hlen', 'protecting recomputes the packet length', where=pr.where)
     kp = prog.method('pgpy.pgp', 'PGPKey', 'protect')
-    loops = [ast.unparse(n.iter) for n in ast.walk(kp.node) if isinstance(n, ast.For)]
-    rep.check(loops == ['itertools.chain([self], self.subkeys.values())'], 'C06.3', 'PGPKey.protect', 'protects %s' % loops,
-              'protecting a key protects the primary and every subkey', where=kp.where)
+    rep.saw(fn=kp)
+    states = Interp(prog, Scenario(inline=noinline)).run(kp)
+    want = _whole_key(kp)
+    some = False
+    for s in states:
+        calls = method_calls_over(prog, kp, [s], 'protect', '._key', pr)
+        if not calls:
+            continue            # the refusing paths (public key, locked key) protect nothing
+        some = True
+        dom = set()
+        for node, atoms, args, recv in calls:
+            dom = None if (atoms is None or dom is None) else dom | atoms
+        rep.check(dom == want and all(args == kp.params[1:4] for _n, _a, args, _r in calls), 'C06.3', 'PGPKey.protect',
+                  'protects %s' % (sorted(v for _k, v in dom) if dom else dom),
+                  'protecting a key protects the primary and every subkey', where=kp.where, expected=sorted(v for _k, v in want),
+                  found=[(alpha(r), a) for _n, _a, a, r in calls])
+    if not some:
+        rep.violation('C06.3', 'PGPKey.protect', 'protects nothing', 'no path protects the key packets', where=kp.where)
+    for name, line in _one_shot_reuse(kp):
+        rep.violation('C06.3', 'PGPKey.protect', 'iterator reused', 'the one-shot iterator %s is iterated a second time' % name,
+                      where='%s:%d' % (kp.module.relpath, line))
 
 
 # ------------------------------------------------------------------------------------------------ C06.4
 def check_decrypt_order(rep, prog):
     base, privs = private_classes(prog)
     bd = base.methods.get('decrypt_keyblob')
+    if bd is None:
+        raise AnalysisError('PrivKey.decrypt_keyblob vanished')
+    rep.saw(fn=bd)
+    me = bd.params[0]
     # guards (same as C04.4)
     for usage in (254, 255):
-        sc = Scenario(bind={'self.s2k.usage': Const(usage)}, axioms={'not self.s2k': False}, inline=noinline)
+        sc = Scenario(bind={'%s.s2k.usage' % me: Const(usage)}, axioms={'%s.s2k' % me: True, 'bool(%s.s2k)' % me: True}, inline=noinline)
         outs = Interp(prog, sc).run(bd)
         PT = None
         for s in outs:
@@ -487,7 +550,8 @@ def check_decrypt_order(rep, prog):
             pred = lambda a, b, _PT=PT: a.replace(_PT, 'PT') == 'SLICE(PT;-20;)' and b.replace(_PT, 'PT') == 'HASH(sha1;SLICE(PT;;-20))'  # noqa: E731
             what = 'the SHA-1 check of the decrypted secret material'
         else:
-            pred = lambda a, b, _PT=PT: a.replace(_PT, 'PT') == 'self.bytes_to_int(SLICE(PT;-2;))' and b.replace(_PT, 'PT') == '(sum(SLICE(PT;;-2)) % 65536)'  # noqa: E731
+            pred = lambda a, b, _PT=PT: a.replace(_PT, 'PT') in ('%s.bytes_to_int(SLICE(PT;-2;))' % me, "int.from_bytes(SLICE(PT;-2;), 'big')") and \
+                b.replace(_PT, 'PT') in ('(sum(SLICE(PT;;-2)) % 65536)', '(sum(SLICE(PT;;-2)) & 65535)')  # noqa: E731
             what = 'the 16-bit checksum of the decrypted secret material'
         guards.check_guard(rep, 'C06.4', 'PrivKey.decrypt_keyblob', outs, pred, what, bd.where, scenario='usage %d' % usage)
     for c in privs:
@@ -497,18 +561,29 @@ def check_decrypt_order(rep, prog):
         rep.saw(fn=f)
         pf = set(ast.literal_eval(c.find_attr('__privfields__')))
         outs = Interp(prog, Scenario(inline=noinline)).run(f)
+        me_, pw = f.params[0], (f.params[1] if len(f.params) > 1 else None)
+        pre = me_ + '.'
+        seen = set()
         for s in outs:
-            first_store = next((i for i, e in enumerate(s.events) if e[0] == 'store' and e[1].startswith('self.') and e[1][5:] in pf), None)
-            base_call = next((i for i, e in enumerate(s.events) if e[0] == 'call' and e[1].startswith('super:') and e[1].endswith('decrypt_keyblob')), None)
-            rep.check(base_call is not None and (first_store is None or base_call < first_store), 'C06.4', '%s.decrypt_keyblob' % c.name,
-                      'base check at %s, first secret store at %s' % (base_call, first_store),
-                      'the checked decryption must come first: a wrong passphrase must raise before any secret field is written', where=f.where)
+            if s.raised is not None:
+                continue
+            first_store = next((i for i, e in enumerate(s.events) if e[0] == 'store' and e[1].startswith(pre) and e[1][len(pre):] in pf), None)
+            base_idx = [i for i, e in enumerate(s.events) if e[0] == 'call' and
+                        (e[1] in ('super:%s' % bd.qualname, '%s.decrypt_keyblob' % base.name)) and e[2][-1:] == [pw]]
+            base_call = base_idx[0] if base_idx else None
+            key = ('order', base_call is not None and (first_store is None or base_call < first_store))
+            if key not in seen:
+                seen.add(key)
+                rep.check(key[1], 'C06.4', '%s.decrypt_keyblob' % c.name,
+                          'base check %s the first secret store' % ('precedes' if key[1] else 'does not precede'),
+                          'the checked decryption must come first: a wrong passphrase must raise before any secret field is written', where=f.where)
             # what is stored comes from the checked plaintext
             for e in s.events:
-                if e[0] == 'store' and e[1].startswith('self.') and e[1][5:] in pf:
-                    rep.check('decrypt_keyblob(passphrase)' in e[2], 'C06.4', '%s.decrypt_keyblob' % c.name, '%s = %s' % (e[1], e[2][:80]),
+                if e[0] == 'store' and e[1].startswith(pre) and e[1][len(pre):] in pf and (e[1], e[2]) not in seen:
+                    seen.add((e[1], e[2]))
+                    rep.check(re.search(r'decrypt_keyblob\((?:%s, )?%s\)' % (re.escape(me_), re.escape(pw or '')), e[2]) is not None, 'C06.4',
+                              '%s.decrypt_keyblob' % c.name, '%s = %s' % (e[1].replace(pre, 'self.'), e[2][:80]),
                               'secret fields must be read from the checked plaintext', where='%s:%d' % (f.module.relpath, e[3]))
-            break
 
 
 # ------------------------------------------------------------------------------------------------ C06.5
@@ -523,12 +598,17 @@ def check_export_discipline(rep, prog):
         rep.saw(fn=f)
         pf = c.find_attr('__privfields__')
         priv = set(ast.literal_eval(pf)) if pf is not None else set()
+        me = f.params[0]
         for protected in (True, False):
-            sc = Scenario(inline=noinline, axioms={'self.s2k': protected, 'not self.s2k': not protected}, bind={'self.s2k.usage': Const(254 if protected else 0)})
+            sc = Scenario(inline=noinline, axioms={'%s.s2k' % me: protected, 'bool(%s.s2k)' % me: protected},
+                          bind={'%s.s2k.usage' % me: Const(254 if protected else 0)})
             for s in Interp(prog, sc).run(f):
+                if s.raised is not None and s.ret is None:
+                    continue
                 r = render(s.ret)
-                mentions_priv = '__privfields__' in r or any(re.search(r'self\.%s\.to_mpibytes' % x, r) for x in priv)
-                has_enc = 'self.encbytes' in r
+                mentions_priv = '__privfields__' in r or any(re.search(r'(?<![\w.])%s\.%s(?!\w)' % (re.escape(me), x), r) for x in priv) or \
+                    any(re.search(r"getattr\(%s, '%s'\)" % (re.escape(me), x), r) for x in priv)
+                has_enc = re.search(r'(?<![\w.])%s\.encbytes(?!\w)' % re.escape(me), r) is not None
                 if protected:
                     rep.check(not mentions_priv and has_enc, 'C06.5', '%s.__bytearray__' % name, 'protected arm emits %s' % r[-120:],
                               'a protected key must serialise its ciphertext and none of the private fields', where=f.where,
@@ -536,7 +616,7 @@ def check_export_discipline(rep, prog):
                 else:
                     rep.check(mentions_priv and not has_enc, 'C06.5', '%s.__bytearray__' % name, 'unprotected arm emits %s' % r[-120:],
                               'an unprotected key serialises its private fields', where=f.where, found=r, scenario='unprotected')
-                rep.check('self.s2k.__bytearray__()' in r, 'C06.5', '%s.__bytearray__' % name, 'S2K specifier emitted', 'the S2K usage/specifier precedes the secret part',
+                rep.check('%s.s2k.__bytearray__()' % me in r, 'C06.5', '%s.__bytearray__' % name, 'S2K specifier emitted', 'the S2K usage/specifier precedes the secret part',
                           where=f.where, scenario='protected' if protected else 'unprotected')
 
 
@@ -561,11 +641,12 @@ def check_protected_parse(rep, prog):
         rep.saw(fn=f)
         for usage in (254, 255, 0):
             protected = usage != 0
-            sc = Scenario(inline=noinline, forward_stores=False, model_del=False, bind={'self.s2k.usage': Const(usage)},
-                          axioms={'not self.s2k': not protected, 'self.s2k': protected})
+            me = f.params[0]
+            sc = Scenario(inline=noinline, forward_stores=False, model_del=False, bind={'%s.s2k.usage' % me: Const(usage)},
+                          axioms={'bool(%s.s2k)' % me: protected, '%s.s2k' % me: protected})
             outs = Interp(prog, sc).run(f)
             for s in outs:
-                reads, problems = codec.reader_sequence(s, 'packet')
+                reads, problems = codec.reader_sequence(s, f.params[1])
                 scen = '%s usage %d' % (c.name, usage)
                 bad = [p for p in problems if p[0] in ('alias-then-consume', 'consume-what-you-read')]
                 rep.check(not bad, 'C06.7', '%s.parse' % c.name, '%s: %s' % (scen, [p[1] for p in bad] or 'consumes what it reads'),
@@ -573,8 +654,8 @@ def check_protected_parse(rep, prog):
                           'removes ciphertext octets' if bad else 'ok', where=f.where, found=[p[1] for p in bad], scenario=scen)
                 targets = [r.target for r in reads if r.target]
                 if protected:
-                    rep.check('self.encbytes' in targets, 'C06.7', '%s.parse' % c.name, '%s: stores %s' % (scen, targets),
+                    rep.check('%s.encbytes' % me in targets, 'C06.7', '%s.parse' % c.name, '%s: stores %s' % (scen, targets),
                               'protected secret material must be kept as ciphertext', where=f.where, scenario=scen)
                     pf = set(ast.literal_eval(c.find_attr('__privfields__')))
-                    rep.check(not any(t.startswith('self.') and t[5:] in pf for t in targets), 'C06.7', '%s.parse' % c.name,
+                    rep.check(not any(t.startswith(me + '.') and t[len(me) + 1:] in pf for t in targets), 'C06.7', '%s.parse' % c.name,
                               '%s: no private field parsed from ciphertext' % scen, 'ciphertext must not be read as cleartext MPIs', where=f.where, scenario=scen)
